@@ -388,6 +388,20 @@ def install(reg):
         return VStr(f(recv.t))
     M[("str", "title")] = s_title
 
+    def b_join(p, recv, args, kw):
+        h = p.deref(args[0])
+        if isinstance(h, HList):
+            if h.items is not None and len(h.items) <= 8:
+                parts = [recv.t.__class__ and p.bytes_term(p.unbox(x)) for x in h.items]
+                out = z3.Empty(BYTES)
+                for i, t in enumerate(parts):
+                    out = t if i == 0 else z3.Concat(out, recv.t, t)
+                return VBytes(out)
+            f = p.engine.uf("bytes_join", BYTES, PVSEQ, BYTES)
+            return VBytes(f(recv.t, p.list_seq(h)))
+        raise Unsupported("bytes.join of that argument")
+    M[("bytes", "join")] = b_join
+
     # ------------------------------------------------------------------ bytes / bytearray
     def ba_extend(p, recv, args, kw):
         h = p.heap[recv.rid]
